@@ -160,8 +160,15 @@ static void check_decode(ctx_t *x, int si, uint32_t present, int p, int force, i
     /* "forced" is any non-zero value of the flag */
     static const int fv[] = { 1, 1, -1, 2, 1, 0x100, -0x7fffffff - 1, 1 };
     int fval = force ? fv[(mon_case_idx / 8) % 8] : 0;
-    callargs_t ca = { desc, cnt ? pr.ptr : dummy, cnt, s->flen, fval, &out, &outlen, 0, NULL };
+    /* the list of fragment pointers is an input as well: handed over on a read-only mapping in a quarter of the cases,
+     * compared with a snapshot in all of them */
+    char *listcopy[PRES_MAX]; memcpy(listcopy, pr.ptr, sizeof(char *) * (size_t)cnt);
+    char **lst = pr.ptr; char **rolist = NULL;
+    if (cnt && (mon_case_idx % 4) == 2) { rolist = g_alloc(sizeof(char *) * (size_t)cnt, G_END); memcpy(rolist, pr.ptr, sizeof(char *) * (size_t)cnt); g_ro(rolist); lst = rolist; mon_count("cases_read_only_pointer_list", 1); }
+    callargs_t ca = { desc, cnt ? lst : dummy, cnt, s->flen, fval, &out, &outlen, 0, NULL };
     int rc = pv == PV_SMALLSTACK ? on_small_stack(do_decode, &ca) : do_decode(&ca);
+    if (cnt && memcmp(lst, listcopy, sizeof(char *) * (size_t)cnt)) mon_viol(PROP, "decode-modified-input-list", "decode(force=%d) changed the caller's array of fragment pointers", fval);
+    if (rolist) g_free(rolist);
     mon_count("evaluations", 1);
     mon_count("decode_calls", 1);
     if (rc == 0) {
@@ -210,13 +217,22 @@ static void check_reconstruct(ctx_t *x, int si, uint32_t present, int p, int des
         }
         mon_count("cases_read_only_fragments", 1);
     }
-    uint8_t *out = malloc(s->flen ? s->flen : 1);
-    memset(out, 0xCD, s->flen);
+    /* the output buffer holds stale non-zero bytes and, in half of the cases, does not start on a 16-byte boundary */
+    int omis = (mon_case_idx % 2) ? 1 + (int)(mon_case_idx / 2 % 15) : 0;
+    uint8_t *outbase = malloc((s->flen ? s->flen : 1) + 16);
+    uint8_t *out = outbase + omis;
+    for (uint64_t b = 0; b < s->flen; b++) out[b] = (uint8_t)(0xC3 ^ (b * 29));
+    if (omis) mon_count("reconstruct_output_misaligned", 1);
     static char *dummy[1];
     int desc = (x->desc2 > 0 && (mon_case_idx & 3) == 1) ? x->desc2 : x->desc;
     if (desc != x->desc) mon_count("calls_through_twin_instance", 1);
-    callargs_t ca = { desc, cnt ? pr.ptr : dummy, cnt, s->flen, 0, NULL, NULL, dest, (char *)out };
+    char *listcopy[PRES_MAX]; memcpy(listcopy, pr.ptr, sizeof(char *) * (size_t)cnt);
+    char **lst = pr.ptr; char **rolist = NULL;
+    if (cnt && (mon_case_idx % 4) == 0) { rolist = g_alloc(sizeof(char *) * (size_t)cnt, G_END); memcpy(rolist, pr.ptr, sizeof(char *) * (size_t)cnt); g_ro(rolist); lst = rolist; mon_count("cases_read_only_pointer_list", 1); }
+    callargs_t ca = { desc, cnt ? lst : dummy, cnt, s->flen, 0, NULL, NULL, dest, (char *)out };
     int rc = pv == PV_SMALLSTACK ? on_small_stack(do_reconstruct, &ca) : do_reconstruct(&ca);
+    if (cnt && memcmp(lst, listcopy, sizeof(char *) * (size_t)cnt)) mon_viol(PROP, "reconstruct-modified-input-list", "reconstruct changed the caller's array of fragment pointers");
+    if (rolist) g_free(rolist);
     mon_count("evaluations", 1);
     mon_count("reconstruct_calls", 1);
     int in_range = dest >= 0 && dest < n;
@@ -239,7 +255,7 @@ static void check_reconstruct(ctx_t *x, int si, uint32_t present, int p, int des
     }
     for (int i = 0; i < cnt; i++)
         if (mon_hash(pr.ptr[i], s->flen, 5) != dig[i]) { mon_viol(PROP, "reconstruct-modified-input", "input fragment %d changed", idx[i]); break; }
-    free(out); free(supplied);
+    free(outbase); free(supplied);
     pres_free(&pr);
 }
 
@@ -1021,6 +1037,23 @@ static void run_canonical(void)
                     for (int i = 0; i < c.k; i++) for (uint64_t b = 0; b < P; b++) xo[b] ^= dp[i][b];
                     if (memcmp(xo, s->frag[c.k] + 80, P)) mon_viol("C04", "first-parity-not-xor", "first parity is not the XOR of the data fragments");
                     free(o); free(xo);
+                    /* "any k of the k+m fragments determine the data", also for a single rebuilt fragment: every parity is rebuilt
+                     * from survivors that lack it and the two (or m-1) first / last data fragments, and must be the model parity */
+                    if (c.m >= 2 && c.k >= 2) {
+                        for (int j = 0; j < c.m; j++) {
+                            int lose = c.m - 1 < 2 ? c.m - 1 : (j & 1 ? c.m - 1 : 2); if (lose > c.k) lose = c.k;
+                            uint32_t er = 1u << (c.k + j);
+                            for (int q = 0; q < lose; q++) er |= 1u << ((j & 2) ? c.k - 1 - q : q);
+                            char *lst[64]; int cnt = 0; int n = c.k + c.m;
+                            for (int i = n - 1; i >= 0; i--) if (!((er >> i) & 1)) lst[cnt++] = (char *)s->frag[i];
+                            uint8_t *of = malloc(s->flen);
+                            int rc = liberasurecode_reconstruct_fragment(x.desc, lst, cnt, s->flen, c.k + j, (char *)of);
+                            mon_count("evaluations", 1); mon_count("parity_fragments_rebuilt", 1);
+                            if (rc != 0) mon_viol("C04", "parity-rebuild-failed", "reconstruct of parity %d with %d data fragments lost returned %d", j, lose, rc);
+                            else if (memcmp(of, s->frag[c.k + j], s->flen)) mon_viol("C04", "rebuilt-parity-differs-from-model", "parity %d rebuilt while %d data fragments were lost is not the canonical parity", j, lose);
+                            free(of);
+                        }
+                    }
                     mon_distinct("nontrivial", mon_hash_u64(s->len, mon_hash_str(x.ck, 10)));
                     mon_end();
                 }
